@@ -69,6 +69,7 @@ type zzC12Env struct {
 	// blockedByForm counts the rejected (429) attempts by the textual form of
 	// the peer address.
 	blockedByForm map[string]int
+	cfgSaved      bool
 }
 
 // zzC12TokenSrc stands in for crypto/rand.Reader while the harness runs: the
@@ -136,6 +137,20 @@ func zzC12NewEnv(t *testing.T) (e *zzC12Env) {
 	})
 
 	return e
+}
+
+// saveConfig remembers, once, the global configuration values the config leg
+// overwrites and restores them when the test ends.
+func (e *zzC12Env) saveConfig() {
+	if e.cfgSaved {
+		return
+	}
+
+	e.cfgSaved = true
+	att, blk, users, wd := config.AuthAttempts, config.AuthBlockMin, config.Users, globalContext.workDir
+	e.t.Cleanup(func() {
+		config.AuthAttempts, config.AuthBlockMin, config.Users, globalContext.workDir = att, blk, users, wd
+	})
 }
 
 func (e *zzC12Env) newDBFile() (fn string) {
@@ -297,6 +312,11 @@ type zzC12RL struct {
 	names []string
 	addrs map[string]netip.Addr
 	auth  *Auth
+
+	// blockMin, when not zero, is the configured block_auth_min of the
+	// "config" leg: the module is then built by initUsers.
+	blockMin uint64
+	ncfg     int
 }
 
 // zzC12RandAddr returns the address of client i in one of the textual forms a
@@ -346,6 +366,12 @@ func (s *zzC12RL) reset(seed int64) {
 		s.addrs[nm] = zzC12RandAddr(rng, i)
 	}
 
+	if s.blockMin != 0 {
+		s.resetFromConfig()
+
+		return
+	}
+
 	rl := newAuthRateLimiter(time.Duration(s.b)*s.tick, uint(s.n))
 	s.auth = InitAuth(s.env.newDBFile(), s.env.users, 3600, rl, zzC12Trusted())
 	if s.auth == nil {
@@ -353,6 +379,30 @@ func (s *zzC12RL) reset(seed int64) {
 	}
 
 	globalContext.auth = s.auth
+}
+
+// resetFromConfig builds the auth module the way the program does at startup:
+// initUsers converts the configuration values into the limiter's parameters.
+func (s *zzC12RL) resetFromConfig() {
+	s.ncfg++
+	workDir := filepath.Join(s.env.dir, fmt.Sprintf("cfg-%d-%d-%d", s.n, s.blockMin%100000, s.ncfg))
+	if err := os.MkdirAll(filepath.Join(workDir, dataDir), 0o755); err != nil {
+		s.env.t.Fatalf("mkdir: %v", err)
+	}
+
+	s.env.saveConfig()
+	globalContext.workDir = workDir
+	config.AuthAttempts = uint(s.n)
+	config.AuthBlockMin = uint(s.blockMin)
+	config.Users = append([]webUser{}, s.env.users...)
+
+	auth, err := initUsers()
+	if err != nil || auth == nil {
+		s.env.t.Fatalf("initUsers failed: %v", err)
+	}
+
+	s.auth = auth
+	globalContext.auth = auth
 }
 
 func (s *zzC12RL) close() {
@@ -373,7 +423,14 @@ func (s *zzC12RL) other(nm string) (a netip.Addr) {
 	return netip.Addr{}
 }
 
-func (s *zzC12RL) describe() (d string) { return fmt.Sprintf("addrs=%v tick=%s", s.addrs, s.tick) }
+func (s *zzC12RL) describe() (d string) {
+	d = fmt.Sprintf("addrs=%v tick=%s", s.addrs, s.tick)
+	if s.blockMin != 0 {
+		d += fmt.Sprintf(" via=initUsers auth_attempts=%d block_auth_min=%d", s.n, s.blockMin)
+	}
+
+	return d
+}
 
 func (s *zzC12RL) do(act string, seed int64) (out, detail string) {
 	f := strings.Fields(act)
@@ -446,12 +503,23 @@ func zzC12Units(d, unit time.Duration) (s string) {
 }
 
 func (s *zzC12RL) state() (st string) {
+	if s.auth.rateLimiter == nil {
+		return "no-limiter"
+	}
+
 	recs, extra := zzC12RLRecs(s.auth.rateLimiter, s.addrs, s.n)
 	parts := make([]string, 0, len(s.names))
 	for _, nm := range s.names {
 		r, ok := recs[nm]
 		if !ok {
 			parts = append(parts, nm+"=0,0")
+
+			continue
+		}
+
+		if s.blockMin != 0 && int(r[0]) >= s.n && r[1] > 100000*s.tick {
+			// A block that outlasts everything walked.
+			parts = append(parts, fmt.Sprintf("%s=%d,long", nm, int(r[0])))
 
 			continue
 		}
@@ -486,6 +554,14 @@ func (s *zzC12RL) matches(dst, obs string) (ok bool) {
 
 		nm, _, _ := strings.Cut(dp[i], "=")
 		if strings.HasSuffix(dp[i], ",0") && !strings.HasSuffix(dp[i], "=0,0") && op[i] == nm+"=0,0" {
+			continue
+		}
+
+		// Config leg: the spec's block (BlockDur of the long configuration)
+		// and the configured one both outlast the history; only "the limit
+		// was reached and the block is in force" is compared.
+		if s.blockMin != 0 && op[i] == fmt.Sprintf("%s=%d,long", nm, s.n) &&
+			strings.HasPrefix(dp[i], fmt.Sprintf("%s=%d,", nm, s.n)) && !strings.HasSuffix(dp[i], ",0") {
 			continue
 		}
 
@@ -838,6 +914,12 @@ type zzC12Graph struct {
 	Init   string      `json:"init"`
 	Names  []string    `json:"names"`
 	Edges  [][4]string `json:"edges"`
+
+	// Leg "config" builds the auth module through the real initUsers from the
+	// configuration values (auth_attempts = N, block_auth_min = BlockMin); the
+	// graph then is the one of a block longer than any walked history.
+	Leg      string `json:"leg"`
+	BlockMin uint64 `json:"block_min"`
 }
 
 type zzC12Edge struct {
@@ -868,7 +950,7 @@ type zzC12Walker struct {
 	maxHist int
 	rseed   int64
 
-	steps, resets, bad, flaky, covered, untaken int
+	steps, resets, bad, flaky, covered, untaken, nblocked int
 	samples                                     int
 }
 
@@ -965,6 +1047,9 @@ func (wk *zzC12Walker) exec(act string, planned *zzC12Edge) (ok bool) {
 	out, detail := wk.sys.do(act, seed)
 	obs := wk.sys.state()
 	wk.steps++
+	if out == "blocked" {
+		wk.nblocked++
+	}
 
 	var adm [][2]string
 	var match *zzC12Edge
@@ -1004,7 +1089,7 @@ func (wk *zzC12Walker) exec(act string, planned *zzC12Edge) (ok bool) {
 	// before reporting it.
 	rec := map[string]any{
 		"module": wk.g.Module, "n": wk.g.N, "b": wk.g.B, "ttl": wk.g.TTL, "variant": wk.variant,
-		"names": wk.g.Names, "init": wk.g.Init, "from": wk.cur,
+		"names": wk.g.Names, "init": wk.g.Init, "from": wk.cur, "leg": wk.g.Leg, "block_min": wk.g.BlockMin,
 		"history": append([]zzC12Step{}, wk.hist...), "act": act, "admissible": adm,
 		"reset_seed": wk.rseed, "act_seed": seed,
 		"got": [2]string{out, obs}, "detail": detail, "concrete": wk.sys.describe(),
@@ -1128,6 +1213,7 @@ func (wk *zzC12Walker) summary() {
 
 	wk.w.put(map[string]any{
 		"kind": "summary", "module": wk.g.Module, "n": wk.g.N, "b": wk.g.B, "ttl": wk.g.TTL,
+		"leg": wk.g.Leg, "block_min": wk.g.BlockMin, "blocked": wk.nblocked,
 		"variant": wk.variant, "edges": total, "covered": wk.covered, "uncovered": wk.untaken,
 		"steps": wk.steps, "resets": wk.resets, "bad": wk.bad, "flaky": wk.flaky,
 		"uncovered_idx": uncovered,
@@ -1137,6 +1223,10 @@ func (wk *zzC12Walker) summary() {
 func zzC12NewSys(env *zzC12Env, g *zzC12Graph, variant string) (sys zzC12Sys) {
 	switch g.Module {
 	case "RL":
+		if g.Leg == "config" {
+			return &zzC12RL{env: env, n: g.N, b: g.B, tick: failedAuthTTL / zzC12Window, names: g.Names, blockMin: g.BlockMin}
+		}
+
 		return &zzC12RL{env: env, n: g.N, b: g.B, tick: failedAuthTTL / zzC12Window, names: g.Names}
 	default:
 		unit := int64(1)
@@ -1208,8 +1298,17 @@ func TestZZVerifC12Walk(t *testing.T) {
 				rng := rand.New(rand.NewSource(zzSeed()*7919 + int64(gi)*101 + int64(vi)*17 + int64(tour)))
 				sys := zzC12NewSys(env, g, variant)
 				wk := zzC12NewWalker(g, variant, sys, rng, w)
-				toured := false
+				// The graph of the config leg is that of a block outlasting any
+				// history: most of it is out of reach by construction, so it is
+				// walked at random only (one walk per configuration value).
+				toured := g.Leg == "config"
 				left := nrand
+				if g.Leg == "config" {
+					left = nrand / 2
+					if tour > 0 {
+						continue
+					}
+				}
 				zzC12Bubbles(func(stop func() bool) (done bool) {
 					wk.restart()
 					if !toured {
